@@ -34,6 +34,18 @@ UNBOUNDED = None        # "no TTL information in the reply": never expires withi
 # environment conventions (what the scripted servers send)
 
 
+
+def tick(now, dt):
+    """Advance a float clock by dt.  A positive dt always makes progress: a real clock cannot
+    stand still while time is being consumed, and without this a remaining lifetime of a few
+    ulps would be absorbed by the addition and the simulated world would spin for ever."""
+    import math
+
+    new = now + dt
+    if dt > 0 and new <= now:
+        new = math.nextafter(now, math.inf)
+    return new
+
 def text(name):
     return ".".join(name) + "." if name else "."
 
@@ -362,7 +374,11 @@ def resolve(world):
                     stats["backoff"] += 1
                     if pause >= BACKOFF_CAP:
                         stats["backoff_cap"] += 1
-                    world.clock = world.clock + pause
+                    # the pause never runs past the end of the lifetime
+                    remaining = lifetime - (world.clock - start)
+                    if pause > remaining:
+                        stats["backoff_clamped"] = stats.get("backoff_clamped", 0) + 1
+                    world.clock = tick(world.clock, max(0.0, min(pause, remaining)))
                     pause = min(pause * 2, BACKOFF_CAP)
                 server = sweep.pop(0)
                 over_tcp = bool(case["tcp"] or case["ns"][server]["maxsize"])
@@ -382,7 +398,7 @@ def resolve(world):
             if kind == "timeout" and o["k"] != "timeout":
                 stats["slow_timeout"] += 1
                 o = {"k": "timeout"}
-            world.clock = world.clock + took
+            world.clock = tick(world.clock, took)
             reply = None
             if kind in ("answer", "nodata", "nxdomain", "chainfail"):
                 reply = interpret_reply(o, name, rdtype)
@@ -473,6 +489,6 @@ def predict(case):
     out = [resolve(world)]
     gap = second_gap(case, out[0])
     if gap is not None:
-        world.clock = world.clock + gap
+        world.clock = tick(world.clock, gap)
         out.append(resolve(world))
     return {"resolutions": out, "gap": gap, "cache": world.cache, "end": world.clock}
